@@ -1813,4 +1813,81 @@ theorem saveAllF_nofault (s : Storage) (bs : List Blk) : saveAllF {} s bs = (sav
   | nil => rfl
   | cons b r ih => simp only [saveAllF, saveBlkF_nofault, ih, saveAll, List.foldl_cons]
 
+/-! ### nested calls of the event wrapper -/
+
+theorem wrapperSave_nested (s : Storage) (b : Blk) : wrapperSave true s b = (s, false) := by
+  simp [wrapperSave]
+
+theorem nestedSaves_eq (b : Blk) (mids : List Dyn) (s : Storage) (log : List Storage) :
+    nestedSaves b mids s log = (s, log) := by
+  unfold nestedSaves
+  induction mids with
+  | nil => rfl
+  | cons m r ih => simp only [List.foldl_cons, wrapperSave_nested]; exact ih
+
+/-- the wrapper with its nested calls computes the circuit and the result of `Circ.event` -/
+theorem eventN_is_event (c : Circ) (cal : Val → Option Bool) (i : Nat) (ev : Ev) :
+    (c.eventN cal i ev).map (fun x => (x.1, x.2.1)) = c.event cal i ev := by
+  unfold Circ.eventN Circ.event
+  split
+  · rfl
+  · split
+    · rfl
+    · next b hb =>
+      simp only [nestedSaves_eq]
+      generalize blockEvent b.kind cal c.now b.dyn ev = p
+      obtain ⟨d, r⟩ := p
+      cases r <;> simp [wrapperSave] <;> split <;> simp_all
+
+/-- the writes of an event: none, or exactly one - the final storage - and then the event was handled -/
+theorem eventN_writes {c c' : Circ} {cal : Val → Option Bool} {i : Nat} {ev : Ev} {r : Res} {ws : List Storage}
+    (h : c.eventN cal i ev = some (c', r, ws)) :
+    (ws = [] ∧ c'.store = c.store) ∨ (∃ v, r = .ret v ∧ ws = [c'.store]) := by
+  unfold Circ.eventN at h
+  split at h
+  · simp at h
+  · split at h
+    · simp at h
+    · next b hb =>
+      simp only [nestedSaves_eq] at h
+      generalize blockEvent b.kind cal c.now b.dyn ev = p at h
+      obtain ⟨d, r0⟩ := p
+      cases r0 with
+      | ret v =>
+        simp only [Option.some.injEq, Prod.mk.injEq] at h
+        obtain ⟨rfl, rfl, rfl⟩ := h
+        unfold wrapperSave
+        split
+        · exact Or.inr ⟨v, rfl, by simp⟩
+        · exact Or.inl ⟨by simp, rfl⟩
+      | handlerError =>
+        simp only [Option.some.injEq, Prod.mk.injEq] at h
+        obtain ⟨rfl, rfl, rfl⟩ := h
+        exact Or.inl ⟨rfl, rfl⟩
+      | paramError =>
+        simp only [Option.some.injEq, Prod.mk.injEq] at h
+        obtain ⟨rfl, rfl, rfl⟩ := h
+        exact Or.inl ⟨rfl, rfl⟩
+      | unknown =>
+        simp only [Option.some.injEq, Prod.mk.injEq] at h
+        obtain ⟨rfl, rfl, rfl⟩ := h
+        exact Or.inl ⟨rfl, rfl⟩
+
+theorem eventN_event {c c' : Circ} {cal : Val → Option Bool} {i : Nat} {ev : Ev} {r : Res} {ws : List Storage}
+    (h : c.eventN cal i ev = some (c', r, ws)) : c.event cal i ev = some (c', r) := by
+  rw [← eventN_is_event, h]; rfl
+
+theorem fireN_is_fire (c : Circ) (cal : Val → Option Bool) (i : Nat) :
+    (c.fireN cal i).map (fun x => (x.1, x.2.1)) = c.fire cal i := by
+  unfold Circ.fireN Circ.fire
+  split
+  · rfl
+  · split
+    · rfl
+    · split
+      · rfl
+      · split
+        · rfl
+        · exact eventN_is_event ..
+
 end Edzed.Persist
